@@ -221,8 +221,15 @@ class Hybrid:
             self.anom('gpt/%s.current-lba' % which, off + 24, 'got %d want %d' % (cur, lba))
         if esize != 128:
             self.anom('gpt/%s.entry-size' % which, off + 84, str(esize))
+        self.fields.append((off + 12, 4, 'gpt.%s.header_size' % which))
         self.fields.append((off + 16, 4, 'gpt.%s.header_crc' % which))
+        self.fields.append((off + 24, 8, 'gpt.%s.current_lba' % which))
+        self.fields.append((off + 32, 8, 'gpt.%s.other_lba' % which))
+        self.fields.append((off + 40, 8, 'gpt.%s.first_usable_lba' % which))
+        self.fields.append((off + 48, 8, 'gpt.%s.last_usable_lba' % which))
         self.fields.append((off + 72, 8, 'gpt.%s.entries_lba' % which))
+        self.fields.append((off + 80, 4, 'gpt.%s.num_entries' % which))
+        self.fields.append((off + 84, 4, 'gpt.%s.entry_size' % which))
         self.fields.append((off + 88, 4, 'gpt.%s.entries_crc' % which))
         eo = ent_lba * 512
         arr = d[eo:eo + n * esize]
